@@ -25,3 +25,6 @@ PAIRS += [
          loops="loops/seg_try_purge.json", need_ids=["loop_invariant_step"], unwind=14,
          functions=["mi_segment_try_purge", "_mi_commit_mask_next_run"], timeout=900, cbmc_flags=NOPTR),
 ]
+import arena_common, os_common
+A = arena_common.pairs(); O = os_common.pairs()
+PAIRS += [A["arena_schedule_purge"], A["arena_free"], O["os_purge_ex"]]
